@@ -17,14 +17,20 @@ package caddyl4
 
 import (
 	"bytes"
+	"crypto/ed25519"
+	"crypto/x509"
+	"crypto/x509/pkix"
+	"encoding/base64"
 	"encoding/json"
 	"fmt"
+	"math/big"
 	"os"
 	"path/filepath"
 	"sort"
 	"strconv"
 	"strings"
 	"testing"
+	"time"
 
 	"github.com/caddyserver/caddy/v2"
 	"github.com/caddyserver/caddy/v2/caddyconfig"
@@ -459,7 +465,7 @@ func vJSONCoq(v any) (string, bool) {
 	case json.Number:
 		n, err := strconv.ParseInt(string(x), 10, 64)
 		if err != nil {
-			return "", false
+			return "(JFloat " + cStr(string(x)) + ")", true
 		}
 		return "(JNum " + cZ(n) + ")", true
 	case []any:
@@ -884,36 +890,47 @@ func (g *vGen) matcherLeaf0(kind string) *vLeaf {
 		return &vLeaf{name: kind, seg: vSetSeg(kind, inl, ents), js: m,
 			coq: fmt.Sprintf("MTls %s %s %s", cBool(kind == "quic"), cBool(inl), cList(cs)), modelled: true}
 	case "http":
-		var ents []*vSeg
-		m := map[string]any{}
-		for _, k := range g.subset([]string{"host", "path", "method", "not"}, 1) {
+		// http.matchers host / path / method, and not over them (Caddy's request matchers)
+		simple := func(k string) ([]string, string) {
+			var v []string
 			switch k {
 			case "host":
-				v := g.distinct([]string{"example.com", "*.example.org", "localhost"}, 1, 2)
-				ents, m["host"] = append(ents, vLine(append([]string{"host"}, v...)...)), jstrs(v)
+				v = g.distinct([]string{"example.com", "*.example.org", "localhost"}, 1, 2)
 			case "path":
-				v := g.some([]string{"/index.html", "/api/*", "/"}, 1, 2)
-				ents, m["path"] = append(ents, vLine(append([]string{"path"}, v...)...)), jstrs(v)
-			case "method":
-				v := g.some([]string{"GET", "POST"}, 1, 2)
-				ents, m["method"] = append(ents, vLine(append([]string{"method"}, v...)...)), jstrs(v)
+				v = g.distinct([]string{"/index.html", "/api/*", "/", "/admin*", "/private"}, 1, 2)
 			default:
-				v := g.pick([]string{"/admin*", "/private"})
-				ents, m["not"] = append(ents, vLine("not", "path", v)), []any{map[string]any{"path": []any{v}}}
+				v = g.distinct([]string{"GET", "POST", "PUT"}, 1, 2)
 			}
+			return v, fmt.Sprintf("(%s, %s)", map[string]string{"host": "HkHost", "path": "HkPath", "method": "HkMethod"}[k], cStrs(v))
 		}
-		var sg *vSeg
-		if len(ents) == 1 && g.r.Bool() {
-			sg = &vSeg{ws: append([]string{"http"}, ents[0].ws...)}
-		} else {
-			sg = vBlock("http", nil, ents)
+		var ents []*vSeg
+		var cs []string
+		m := map[string]any{}
+		for _, k := range g.distinct([]string{"host", "path", "method", "not"}, 1, 3) {
+			if k != "not" {
+				v, c := simple(k)
+				ents, m[k], cs = append(ents, vLine(append([]string{k}, v...)...)), jstrs(v), append(cs, "HmSimple "+c)
+				continue
+			}
+			var ie []*vSeg
+			var ic []string
+			im := map[string]any{}
+			for _, ik := range g.distinct([]string{"host", "path", "method"}, 1, 2) {
+				v, c := simple(ik)
+				ie, im[ik], ic = append(ie, vLine(append([]string{ik}, v...)...)), jstrs(v), append(ic, c)
+			}
+			iinl := len(ie) == 1 && g.chance(60)
+			ents, m["not"] = append(ents, vSetSeg("not", iinl, ie)), []any{im}
+			cs = append(cs, fmt.Sprintf("HmNot %s %s", cBool(iinl), cList(ic)))
 		}
-		return &vLeaf{name: "http", seg: sg, js: []any{m}}
+		inl := len(ents) == 1 && g.r.Bool()
+		return &vLeaf{name: "http", seg: vSetSeg("http", inl, ents), js: []any{m},
+			coq: fmt.Sprintf("MHttp %s %s", cBool(inl), cList(cs)), modelled: true}
 	}
 	panic("unknown matcher kind " + kind)
 }
 
-var vModelledKinds = append(append([]string{}, vMatcherKinds[:15]...), "tls", "quic")
+var vModelledKinds = vMatcherKinds
 var vHandlerKinds = []string{"echo", "proxy_protocol", "throttle", "socks5", "proxy", "tls"}
 
 func (g *vGen) optInt(pct int, cands []int64) *int64 {
@@ -929,6 +946,24 @@ func vIntStr(v *int64) *string {
 	}
 	s := strconv.FormatInt(*v, 10)
 	return &s
+}
+
+// a self-signed CA certificate (base64 DER) for "tls_trust_pool inline { trust_der ... }"
+var vCACertB64 string
+
+func vCACert() string {
+	if vCACertB64 == "" {
+		key := ed25519.NewKeyFromSeed(bytes.Repeat([]byte{7}, ed25519.SeedSize)) // deterministic key and signature
+		tmpl := &x509.Certificate{SerialNumber: big.NewInt(1), Subject: pkix.Name{CommonName: "verif test CA"},
+			NotBefore: time.Unix(1700000000, 0), NotAfter: time.Unix(4000000000, 0), IsCA: true, BasicConstraintsValid: true,
+			KeyUsage: x509.KeyUsageCertSign}
+		der, err := x509.CreateCertificate(nil, tmpl, tmpl, key.Public(), key)
+		if err != nil {
+			panic(err)
+		}
+		vCACertB64 = base64.StdEncoding.EncodeToString(der)
+	}
+	return vCACertB64
 }
 
 func (g *vGen) upstream() (*vSeg, map[string]any, string) {
@@ -975,9 +1010,17 @@ func (g *vGen) upstream() (*vSeg, map[string]any, string) {
 		if len(cauth) == 1 {
 			ca = cauth[0]
 		}
-		tlsj = vKeep{jobj("client_certificate_automate", ca, "insecure_skip_verify", ins, "handshake_timeout", vDurNs(to),
+		var caj any
+		trc := "None"
+		if g.chance(25) {
+			certs := []string{vCACert()}
+			ls = append(ls, &vSeg{ws: []string{"tls_trust_pool", "inline"}, hb: true, body: []*vSeg{vLine("trust_der", certs[0])}})
+			caj = map[string]any{"provider": "inline", "trusted_ca_certs": jstrs(certs)}
+			trc = "(Some " + cStrs(certs) + ")"
+		}
+		tlsj = vKeep{jobj("ca", caj, "client_certificate_automate", ca, "insecure_skip_verify", ins, "handshake_timeout", vDurNs(to),
 			"server_name", jstr(sn), "renegotiation", jstr(re), "except_ports", jstrs(except), "curves", jstrs(curves))}
-		tlsc = fmt.Sprintf("(Some (UpTLS %s %s %s %s %s %s %s))", cBool(ins), cOptStr(sn), cOptStr(re), cOptDur(to), cStrs(curves), cStrs(except), cStrs(cauth))
+		tlsc = fmt.Sprintf("(Some (UpTLS %s %s %s %s %s %s %s %s))", cBool(ins), cOptStr(sn), cOptStr(re), cOptDur(to), cStrs(curves), cStrs(except), cStrs(cauth), trc)
 	}
 	all := append(append([]string{}, args...), dial...)
 	return vBlock("upstream", args, ls), jobj("dial", jstrs(all), "tls", tlsj, "max_connections", jint(mc)),
@@ -1009,18 +1052,20 @@ func (g *vGen) handlerLeaf0(kind string) *vLeaf {
 			if !g.chance(50) {
 				return nil, nil, "None"
 			}
-			if g.full && g.chance(40) {
+			if g.chance(30) {
+				d := [][2]string{{"1", "5"}, {"0", "25"}, {"1024", "75"}, {"12", "125"}, {"0", "000001"}}[g.r.Intn(5)]
+				s := d[0] + "." + d[1]
+				ip, _ := strconv.ParseUint(d[0], 10, 64)
+				return &s, json.Number(s), fmt.Sprintf("(Some (RDec %s %s))", cN(ip), cStr(d[1]))
+			}
+			if g.full && g.chance(15) { // exponent form: outside the model
 				modelled = false
-				s := g.pick([]string{"1.5", "0.25", "1024.75", "1e3"})
-				num := s
-				if s == "1e3" {
-					num = "1000"
-				}
-				return &s, json.Number(num), ""
+				s := "1e3"
+				return &s, json.Number("1000"), ""
 			}
 			v := []uint64{0, 1, 100, 1000, 1048576}[g.r.Intn(5)]
 			s := strconv.FormatUint(v, 10)
-			return &s, int64(v), "(Some " + cN(v) + ")"
+			return &s, int64(v), "(Some (RInt " + cN(v) + "))"
 		}
 		rs, rj, rc := fl()
 		ts, tj, tc := fl()
@@ -1151,29 +1196,44 @@ func (g *vGen) handlerLeaf0(kind string) *vLeaf {
 				cOptDur(fd), cOptZ(mf), cOptZ(uc2), polC, cOptDur(td), cOptDur(ti), cOptStr(pp)),
 			modelled: true}
 	case "tls":
+		// connection policies (cert_selection and client_auth are Caddy's own parsers: not generated)
 		var cps []any
 		var ls []*vSeg
+		var cc []string
 		n := g.r.Intn(3)
 		for i := 0; i < n; i++ {
-			var alpn []string
+			var alpn, ciphers, curves, protos []string
 			if g.chance(50) {
 				alpn = g.some([]string{"h2", "http/1.1"}, 1, 2)
 			}
-			var dsni *string
+			if g.chance(25) {
+				ciphers = g.distinct([]string{"TLS_ECDHE_RSA_WITH_AES_128_GCM_SHA256", "TLS_ECDHE_ECDSA_WITH_AES_256_GCM_SHA384", "TLS_ECDHE_RSA_WITH_CHACHA20_POLY1305_SHA256"}, 1, 2)
+			}
+			if g.chance(25) {
+				curves = g.distinct([]string{"x25519", "secp256r1", "secp384r1"}, 1, 2)
+			}
+			var dsni, fsni *string
 			if g.chance(40) {
 				s := g.pick([]string{"example.com", "fallback.test"})
 				dsni = &s
 			}
-			var protos []string
+			if g.chance(20) {
+				s := g.pick([]string{"fb.example.com", "other.test"})
+				fsni = &s
+			}
+			drop := g.chance(15)
 			if g.chance(40) {
 				protos = [][]string{{"tls1.2"}, {"tls1.2", "tls1.3"}, {"tls1.3"}}[g.r.Intn(3)]
 			}
 			var match any
 			var mseg []*vSeg
+			mc := "None"
 			if g.chance(50) {
-				ents, mm, _ := g.tlsMatchSet(1)
+				ents, mm, cs := g.tlsMatchSet(1)
+				minl := len(ents) == 1 && g.r.Bool()
 				match = mm
-				mseg = []*vSeg{vSetSeg("match", len(ents) == 1 && g.r.Bool(), ents)}
+				mseg = []*vSeg{vSetSeg("match", minl, ents)}
+				mc = fmt.Sprintf("(Some (%s, %s))", cBool(minl), cList(cs))
 			}
 			pmin, pmax := "", ""
 			if len(protos) > 0 {
@@ -1182,11 +1242,16 @@ func (g *vGen) handlerLeaf0(kind string) *vLeaf {
 			if len(protos) > 1 {
 				pmax = protos[1]
 			}
-			cps = append(cps, jobj("match", match, "alpn", jstrs(alpn), "protocol_min", pmin, "protocol_max", pmax, "default_sni", jstr(dsni)))
+			cps = append(cps, jobj("match", match, "cipher_suites", jstrs(ciphers), "curves", jstrs(curves), "alpn", jstrs(alpn),
+				"protocol_min", pmin, "protocol_max", pmax, "drop", drop, "default_sni", jstr(dsni), "fallback_sni", jstr(fsni)))
 			ls = append(ls, &vSeg{ws: []string{"connection_policy"}, hb: true,
-				body: vCat(vLineMulti("alpn", alpn, 1), vLineOpt("default_sni", dsni), mseg, vLineIf("protocols", protos))})
+				body: vCat(vLineMulti("alpn", alpn, 1), vLineMulti("ciphers", ciphers, 1), vLineMulti("curves", curves, 1),
+					vLineOpt("default_sni", dsni), vLineFlag("drop", drop), vLineOpt("fallback_sni", fsni), vLineIf("protocols", protos), mseg)})
+			cc = append(cc, fmt.Sprintf("ConnPolicy %s %s %s %s %s %s None %s %s", cStrs(alpn), cStrs(ciphers), cStrs(curves),
+				cOptStr(dsni), cBool(drop), cOptStr(fsni), cStrs(protos), mc))
 		}
-		return &vLeaf{name: "tls", seg: vBlock("tls", nil, ls), js: jobj("connection_policies", cps)}
+		return &vLeaf{name: "tls", seg: vBlock("tls", nil, ls), js: jobj("connection_policies", cps),
+			coq: "HTls " + cList(cc), modelled: true}
 	}
 	panic("unknown handler kind " + kind)
 }
@@ -1845,8 +1910,8 @@ func vLayer4Wrappers(parsed any) []any {
 // module names the Coq model covers (used to decide whether a golden is in the modelled fragment)
 var vModelledMatchers = map[string]bool{"ssh": true, "xmpp": true, "postgres": true, "proxy_protocol": true, "socks4": true, "socks5": true,
 	"regexp": true, "clock": true, "wireguard": true, "winbox": true, "remote_ip": true, "local_ip": true, "dns": true, "rdp": true,
-	"openvpn": true, "not": true, "tls": true, "quic": true}
-var vModelledHandlers = map[string]bool{"echo": true, "proxy_protocol": true, "throttle": true, "socks5": true, "proxy": true, "tee": true, "subroute": true}
+	"openvpn": true, "not": true, "tls": true, "quic": true, "http": true}
+var vModelledHandlers = map[string]bool{"echo": true, "proxy_protocol": true, "throttle": true, "socks5": true, "proxy": true, "tee": true, "subroute": true, "tls": true}
 
 func vRoutesModelled(routes any) bool {
 	rs, _ := routes.([]any)
@@ -1867,6 +1932,17 @@ func vRoutesModelled(routes any) bool {
 				ups, _ := vGet(h, "upstreams").([]any)
 				for _, u := range ups {
 					if vGet(u, "tls", "ca") != nil || vGet(u, "tls", "root_ca_pool") != nil || vGet(u, "tls", "root_ca_pem_files") != nil {
+						return false
+					}
+				}
+			}
+			if name == "tls" {
+				cps, _ := vGet(h, "connection_policies").([]any)
+				for _, cp := range cps {
+					if vGet(cp, "certificate_selection") != nil || vGet(cp, "client_authentication") != nil || vGet(cp, "insecure_secrets_log") != nil {
+						return false
+					}
+					if mm, ok := vGet(cp, "match").(map[string]any); ok && !vTLSSetModelled(mm) {
 						return false
 					}
 				}
@@ -1896,6 +1972,42 @@ func vSetModelled(set any) bool {
 					return false
 				}
 			}
+		}
+		if name == "tls" || name == "quic" {
+			if mm, ok := v.(map[string]any); !ok || !vTLSSetModelled(mm) {
+				return false
+			}
+		}
+		if name == "http" {
+			sets, _ := v.([]any)
+			for _, hs := range sets {
+				hm, _ := hs.(map[string]any)
+				for k, hv := range hm {
+					switch k {
+					case "host", "path", "method":
+					case "not":
+						ns, _ := hv.([]any)
+						for _, n := range ns {
+							nm, _ := n.(map[string]any)
+							for ik := range nm {
+								if ik != "host" && ik != "path" && ik != "method" {
+									return false
+								}
+							}
+						}
+					default:
+						return false
+					}
+				}
+			}
+		}
+	}
+	return true
+}
+func vTLSSetModelled(m map[string]any) bool {
+	for k := range m {
+		if k != "sni" && k != "alpn" && k != "remote_ip" && k != "local_ip" {
+			return false
 		}
 	}
 	return true
